@@ -37,6 +37,54 @@ func c13(c *Ctx) {
 	c13R13(c)
 	ruleArgSwap(c, "C13.R11", c.P.AllFuncs(), "the whole module (pod namespace / name pairs select the host-side link a teardown removes)")
 	itemIndependent(c, "C13.R7", [][3]string{{"daemon", "ruleSync", "one rule set per pod interface"}})
+	// shared: the routing table of an interface is its own — two interfaces never share one, so a pod's
+	// egress route is not replaced by another interface's (C14.R2: table id is injective in the link index)
+	c14R2(c)
+	c13R14(c)
+}
+
+// R14: which interface of a pod carries the default route is the daemon's decision (it picks one per
+// pod, C12.R1); the plugin hands the flag to the datapath as it came.
+func c13R14(c *Ctx) {
+	p := c.P
+	c.Rule("C13.R14", "parseSetupConf: SetupConfig.DefaultRoute is the allocation's default-route flag itself (alloc.GetDefaultRoute() / alloc.DefaultRoute, through plain locals) — nothing in the plugin turns it on for another interface")
+	fn := p.Func(pluginPkg, "parseSetupConf")
+	if fn == nil {
+		c.Unres("C13.R14", "parseSetupConf", "not found")
+		return
+	}
+	info := fn.Info()
+	n := 0
+	ast.Inspect(fn.Decl.Body, func(nd ast.Node) bool {
+		cl, ok := nd.(*ast.CompositeLit)
+		if !ok || !typeIs(info.TypeOf(cl), modPath+"/plugin/driver/types", "SetupConfig") {
+			return true
+		}
+		for _, el := range cl.Elts {
+			kv, ok := el.(*ast.KeyValueExpr)
+			if !ok || exprString(kv.Key) != "DefaultRoute" {
+				continue
+			}
+			n++
+			v := ast.Unparen(derefExpr(fn, kv.Value))
+			okSrc := false
+			switch t := v.(type) {
+			case *ast.CallExpr:
+				if f := Callee(info, t); f != nil && f.Name() == "GetDefaultRoute" && len(t.Args) == 0 {
+					if sig := f.Type().(*types.Signature); sig.Recv() != nil && typeIs(sig.Recv().Type(), modPath+"/rpc", "NetConf") {
+						okSrc = true
+					}
+				}
+			case *ast.SelectorExpr:
+				if t.Sel.Name == "DefaultRoute" && typeIs(info.TypeOf(t.X), modPath+"/rpc", "NetConf") {
+					okSrc = true
+				}
+			}
+			c.Check(okSrc, "C13.R14", "the default-route flag is the daemon's", p.Pos(kv), fn.Key(), "DefaultRoute: alloc.GetDefaultRoute()", "DefaultRoute: "+exprString(v))
+		}
+		return true
+	})
+	c.Floor("C13.R14", "SetupConfig literals with a DefaultRoute field in parseSetupConf", 1, n)
 }
 
 func c13Generators(c *Ctx) []*FuncInfo {
